@@ -447,3 +447,55 @@ fn call_robust_stage1_f32(pts: &[Point<f32, 2>; 3], q: Point<f32, 2>) -> Result<
 insphere2d_f32_large!(c12_insphere2d_fast_f32_large, call_fast_in_sphere_f32);
 insphere2d_f32_large!(c12_insphere2d_lifted_f32_large, call_insphere_lifted_f32);
 insphere2d_f32_large!(c12_insphere2d_robust1_f32_large, call_robust_stage1_f32);
+
+// ---------------------------------------------------------------------------
+// Orientation D=3 on ANISOTROPIC dyadic lattices: x and y scaled by 2^a, z by 2^b. All matrix
+// entries are small integers times powers of two, so the exact determinant is n * 2^(2a+b).
+// The strict sign is demanded where it clears the documented tolerance
+// 1e-15 + 1e-12 * |A|_inf (|A|_inf <= 3 * 2^a) by more than 100x: a + b >= -30 and 2a + b >= -40.
+// (Catches singularity thresholds on individual LU pivots, which isotropic grids never reach.)
+// ---------------------------------------------------------------------------
+
+macro_rules! orient3d_aniso {
+    ($name:ident, $kernel:ty) => {
+        harness! {
+            // bound: D=3 orientation, first vertex at the origin, three points of {-1,0,1}^3 scaled by (2^a, 2^a, 2^b), a in 0..=12, b in -44..=0 symbolic
+            #[kani::unwind(6)]
+            fn $name() {
+                let a: u8 = kani::any();
+                let nb: u8 = kani::any();
+                kani::assume(a <= 12 && nb <= 44);
+                let sa = f64::from_bits((1023_u64 + u64::from(a)) << 52);
+                let sb = f64::from_bits((1023_u64 - u64::from(nb)) << 52);
+                let mut ip = [[0_i32; 3]; 4];
+                let mut pts = [Point::new([0.0, 0.0, 0.0]); 4];
+                let mut i = 1;
+                while i < 4 {
+                    let c = [any_grid(1), any_grid(1), any_grid(1)];
+                    ip[i] = c;
+                    pts[i] = Point::new([f64::from(c[0]) * sa, f64::from(c[1]) * sa, f64::from(c[2]) * sb]);
+                    i += 1;
+                }
+                let exact = sign(exact_orient3(&ip));
+                let got = match <$kernel as Kernel<3>>::orientation(&<$kernel>::new(), &pts) {
+                    Ok(v) => v,
+                    Err(_) => 99,
+                };
+                let (ai, bi) = (i32::from(a), -i32::from(nb));
+                if exact == 0 {
+                    assert!(got == 0, "exactly degenerate => DEGENERATE");
+                } else if ai + bi >= -30 && 2 * ai + bi >= -40 {
+                    assert!(got == exact, "determinant well above the documented tolerance => exact sign");
+                } else {
+                    assert!(got == exact || got == 0, "inside the dead band: never the opposite sign");
+                }
+                kani::cover!(exact > 0 && nb >= 41 && ai + bi >= -30, "tiny z-scale with a strict answer demanded reached");
+                kani::cover!(exact < 0 && a == 0 && nb == 0, "isotropic unit scale reached");
+                kani::cover!(exact == 0, "degenerate reached");
+            }
+        }
+    };
+}
+
+orient3d_aniso!(c12_orient3d_fast_aniso_origin, FastKernel<f64>);
+orient3d_aniso!(c12_orient3d_robust_aniso_origin, RobustKernel<f64>);
